@@ -320,6 +320,8 @@ DEFAULT_CFG = {
     "strat_obj": False,
     "rec_durs": [0],             # ticks spent inside the strategy object's record_failure (menu)
     "abort_kind": "method",      # "falsy-object": abort_if is a callable object whose bool() is False
+    "unwind_ticks": 0,           # virtual loop: ticks the operation needs to clean up after it was
+                                 # cancelled (by wait_for's timeout or by the caller)
     "deco_shared": False,        # one retry(...) decorator object is applied to a function of the
                                  # *other* kind (sync / async) first, then to the function under test
     "classifier_kind": "method",  # "falsy": the classifier is a callable rule table with len() == 0
@@ -1096,6 +1098,11 @@ class World:
             except asyncio.CancelledError:
                 # cut short: by the attempt timeout or by cancellation of the whole call
                 self.trace.append(("op", n, "cut", t0, self.rel(), None))
+                if self.cfg["unwind_ticks"]:
+                    try:   # cleaning up takes time; a further cancellation ends the cleanup
+                        await self.loop.pause(self.cfg["unwind_ticks"] * TAU)
+                    except asyncio.CancelledError:
+                        pass
                 raise
             return self._op_finish(n, label, t0, self.rel())
         n, label, t0, t1 = self._op_body()
